@@ -56,8 +56,10 @@ def selftest(ctx, dump):
     import json
     lines = open(dump).read().splitlines()
     # (1) make the first sink write read the array of the buffer pooled just before
-    put = next((json.loads(l) for l in lines if '"bufput"' in l), None)
-    idx = next((i for i, l in enumerate(lines) if '"sinkstart"' in l), None)
+    pidx0 = next((i for i, l in enumerate(lines) if '"bufput"' in l), None)
+    put = json.loads(lines[pidx0]) if pidx0 is not None else None
+    idx = next((i for i, l in enumerate(lines) if '"sinkstart"' in l and pidx0 is not None and i > pidx0
+                and json.loads(l)["g"] == put["g"]), None)
     if put is None or idx is None:
         raise vf.Infra("self-test: trace has no bufput/sinkstart events")
     ev = json.loads(lines[idx]); ev["arr"] = put["arr"]
@@ -66,7 +68,7 @@ def selftest(ctx, dump):
     pidx = next(i for i, l in enumerate(lines) if '"bufput"' in l)
     b = json.loads(lines[pidx])["b"]
     later = any(('"bufget"' in l and json.loads(l)["b"] == b) for l in lines[pidx + 1:])
-    tests = [("corrupted-field", bad1[:2000])]
+    tests = [("corrupted-field", bad1[:idx + 50])]
     if later:
         tests.append(("dropped-hook-line", lines[:pidx] + lines[pidx + 1:]))
     for name, content in tests:
